@@ -7,6 +7,7 @@ import (
 	"cosmossdk.io/math"
 	cryptotypes "github.com/cosmos/cosmos-sdk/crypto/types"
 	sdk "github.com/cosmos/cosmos-sdk/types"
+	authtypes "github.com/cosmos/cosmos-sdk/x/auth/types"
 	banktypes "github.com/cosmos/cosmos-sdk/x/bank/types"
 	"pgregory.net/rapid"
 
@@ -73,7 +74,7 @@ func TestC09Rapid(t *testing.T) {
 						c.Class("zero-amount-deposit")
 					}
 					var data []byte
-					if hk := rapid.IntRange(0, 10).Draw(rt, "hook"); (hk < 4 || hk == 10) && to != "bogus-recipient" {
+					if hk := rapid.IntRange(0, 13).Draw(rt, "hook"); (hk < 4 || hk >= 10) && to != "bogus-recipient" {
 						// hooks signed by the recipient: a withdrawal inside the hook, optionally followed by a failing message
 						var rcpt henv.User
 						for _, u := range tc.users {
@@ -97,6 +98,20 @@ func TestC09Rapid(t *testing.T) {
 							}
 							msgs = append(msgs, opchildtypes.NewMsgInitiateTokenWithdrawal(rcpt.Str, "l1-target-of-the-hook", sdk.NewCoin(l2d, math.OneInt())))
 							c.Class("deposit-with-long-hook-then-withdrawal")
+						case 11:
+							// the withdrawal is followed by a message no handler exists for
+							msgs = append(msgs, &authtypes.MsgUpdateParams{Authority: rcpt.Str, Params: authtypes.DefaultParams()})
+							c.Class("deposit-with-hook-withdrawal-then-unroutable-message")
+						case 12:
+							// the withdrawal is followed by more transfers than the hook's gas allowance pays for
+							for k := 0; k < 60; k++ {
+								msgs = append(msgs, banktypes.NewMsgSend(rcpt.Addr, tc.users[0].Addr, sdk.NewCoins(coinOf("stake", 1))))
+							}
+							c.Class("deposit-with-hook-withdrawal-then-out-of-gas")
+						case 13:
+							// two withdrawals in one hook
+							msgs = append(msgs, opchildtypes.NewMsgInitiateTokenWithdrawal(rcpt.Str, "second-l1-target", sdk.NewCoin(l2d, math.OneInt())))
+							c.Class("deposit-with-hook-making-two-withdrawals")
 						case 2:
 							// a single message that writes before it fails: native tokens cannot be withdrawn
 							msgs = []sdk.Msg{opchildtypes.NewMsgInitiateTokenWithdrawal(rcpt.Str, "l1-target-of-the-hook", coinOf("stake", 2))}
